@@ -446,8 +446,12 @@ class World:
         self.raise_on_resume: list[BaseException | None] = [None] * size
         self.spins = [0] * size
         self.steps = 0
-        self._go = [threading.Semaphore(0) for _ in range(size)]
-        self._back = threading.Semaphore(0)
+        # batons: raw locks used as binary semaphores (strict alternation
+        # between the scheduler and exactly one rank, so never released twice)
+        self._go = [threading.Lock() for _ in range(size)]
+        self._back = threading.Lock()
+        for lk in (*self._go, self._back):
+            lk.acquire()
         self._ran = False
         self.harness_error: BaseException | None = None
 
